@@ -67,6 +67,19 @@ fn catalogue(seed: u64, tier: &str) -> Vec<Value> {
             v.push(json!({"op": "msm", "g": g, "fn": "default", "points": pts.to_vec(), "scalars": good.clone(), "cls": "after-aborting-call"}));
         }
     }
+    // calls that stay inside the library for a while (so that the lock-step phase really has many
+    // threads inside the same entry point at once): MSM over a few hundred labelled points
+    {
+        use pairing::bls12_381::{G1, G2};
+        use pairing::CurveProjective;
+        let mut rr = Rng(seed ^ 0x3131);
+        for (g, n) in [("G1", 400usize), ("G2", 150)].iter() {
+            let a: Vec<i64> = (0..*n).map(|_| rr.below(17) as i64 - 8).collect();
+            let ks: Vec<Value> = (0..*n).map(|_| nat(&rand_scalar_bits(&mut rr, 255))).collect();
+            let base = if *g == "G1" { aff_to_j(&G1::one().into_affine()) } else { aff_to_j(&G2::one().into_affine()) };
+            v.push(json!({"op": "msml", "g": g, "fn": "default", "base": base, "a": a, "scalars": ks, "cls": "long-running-msm"}));
+        }
+    }
     // one entry point, inputs with different verdicts next to each other: for every encoding a valid
     // point, a curve point outside the subgroup, a second valid point, a string without curve point
     {
